@@ -27,7 +27,7 @@ Print Assumptions C09_only_addressee.
 (* the same on the table, in ANY state: the reply found a slot (a, c, reply serial) and removed it *)
 Theorem C09_only_addressee_any_state : forall cf st c m st' o a,
   restrictive cf = true -> m_rserial m <> 0 -> dispatch cf st c m = (st', o) -> fwd_to o a = true ->
-  resolve st (m_dest m) = Some a /\ o = [(a, OFwd c m)] /\
+  resolve st (m_dest m) = Some a /\ o = (a, OFwd c m) :: eav_out cf st c a m /\
   exists l1 p l2, st_pend st = l1 ++ p :: l2 /\ pend_match a c (m_rserial m) p = true /\
                   (forall q, In q (st_pend st') -> In q (l1 ++ l2) \/ (is_call m = true /\ q = mkPend c (Some a) (m_serial m) (st_now st))).
 Proof. exact requested_only_state. Qed.
